@@ -1,6 +1,6 @@
-"""C05 correspondence: Retr / + / add_ / Jinvp / Jr vs Model/LieTangent.v, Model/LieJac.v (enclosure route;
-exact route for the algebra addition), and the defining identities evaluated on the implementation
-(search oracle): X@Exp(a) = Exp(Adj(X,a))@X, Exp(a)@X = X@Exp(AdjT(X,a)), Retr = + = Exp(a)@X,
+"""C05 correspondence: Retr / + / add_ / Jinvp / Jr vs Model/LieTangent.v, Model/LieJac.v, Adj / AdjT vs Model/LieGroup.v
+(g_adj) (interval route; exact comparison for the algebra addition), and the defining identities evaluated on the
+implementation for every generated case (oracles written from the property text): X@Exp(a) = Exp(Adj(X,a))@X, Exp(a)@X = X@Exp(AdjT(X,a)), Retr = + = Exp(a)@X,
 Jinvp = first-order change of Log(Exp(tau)@X), Exp(x+d) = Exp(x)@Exp(Jr d) + o(|d|)."""
 import math
 from ..common import *
@@ -8,9 +8,14 @@ from ..lie import *
 from .c01 import K_EPS, K_SQRT, direction, gen_x, regime
 
 K_JAC = 1024
-RULE = ('(group, op, X, a) with X a valid group element (unit quaternion up to rounding) and a from the C01 block generator '
-        '(zero, tiny, around eps, O(1), large); ops Retr, +, add_ (with extra trailing components), algebra +, Jinvp, Jr; '
-        'non-trivial = a != 0; distinct by value; tolerances 256 eps (rotation/scale), 64 sqrt(eps) (translation block)')
+RULE = ('(group, op, X, a) with X a valid group element (unit quaternion up to rounding; generic, no rotation, exact half turn, identity, '
+        'w < 0) and a from the C01 block generator (zero, tiny, around eps, O(1), large; single-block tangents: only scale / only translation / '
+        'only rotation); ops Retr, +, add_ (with extra trailing components), Adj, AdjT, algebra +, Jinvp (both dtypes), Jr; every case is judged '
+        'by an oracle on the implementation (identities as transformations; Adj/AdjT = vee(T a^ T^-1) / vee(T^-1 a^ T) in rational arithmetic; '
+        'Jinvp = (sum_n ad^n/(n+1)!)^-1 p at an independent Log X, Sim3 within the documented truncation) and tied to the model; batches: '
+        'broadcastable shape pairs x memory layouts, item by item against single-element calls; judged calls are second calls on their object; '
+        'arguments snapshotted; non-trivial = a != 0; distinct by value; tolerances 256 eps (rotation/scale, Adj), 64 sqrt(eps) (translation block), '
+        'Jinvp oracle 1024 eps outside the small-angle zone')
 
 
 def tol_group(g, out, eps):
@@ -596,7 +601,8 @@ def run(ctx):
     #      tangents, half turn) mixed with generic ones; item by item against the single-element calls
     for g in GROUPS:
         alg = ALGS[GROUPS.index(g)]
-        for t in range(ctx.scale(18, 120)):
+        for t0 in range(ctx.scale(12, 120)):
+            t = t0 + 5 * GROUPS.index(g)         # the groups walk through different (shapes, layout, dtype) combinations
             dname = 'float64' if t % 2 == 0 else 'float32'
             dtype = torch.float64 if dname == 'float64' else torch.float32
             bx, ba = BATCH_SHAPES[t % len(BATCH_SHAPES)]
